@@ -150,6 +150,7 @@ type Gen struct {
 	funcs   map[string]string // function name -> source
 	forder  []string
 	methods []string
+	needMath bool
 }
 
 func NewGen() *Gen { return &Gen{decls: map[string]*Ty{}, funcs: map[string]string{}} }
@@ -407,9 +408,10 @@ func (g *Gen) RefDiff(t *Ty) string {
 
 // ---------- refScramble: overwrite every mutable location reachable from a value ----------
 //
-// refScramble_T(p *T) stores fresh arbitrary leaves through every pointer, into every slice
-// element (including spare capacity) and every map entry reachable from *p, without changing
-// the shape. Used to show that a copy shares no memory with its source.
+// refScramble_T(p *T) changes every leaf reachable from *p (through every pointer, every slice
+// element including spare capacity, every map entry) to a different value, and inserts a fresh
+// entry into every map, without otherwise changing the shape. Used to show that a copy shares no
+// memory with its source: any shared location would make the change visible on the other side.
 
 func (g *Gen) RefScramble(t *Ty) string {
 	t = g.resolve(t)
@@ -426,7 +428,18 @@ func (g *Gen) RefScramble(t *Ty) string {
 	var body string
 	switch u.K {
 	case "basic":
-		body = fmt.Sprintf("\t*p = vx.Nondet[%s](\"scramble\")\n", t.Expr())
+		switch u.Name {
+		case "bool":
+			body = "\t*p = !*p\n"
+		case "string":
+			body = "\t*p = *p + \"!\"\n"
+		case "float64", "float32":
+			body = "\tif *p == 0 {\n\t\t*p = 1\n\t} else {\n\t\t*p = -*p\n\t}\n"
+		case "complex128", "complex64":
+			body = "\tif *p == 0 {\n\t\t*p = 1\n\t} else {\n\t\t*p = -*p\n\t}\n"
+		default:
+			body = "\t*p = *p + 1\n"
+		}
 	case "ptr":
 		body = fmt.Sprintf("\tif *p != nil {\n\t\t%s(*p)\n\t}\n", g.RefScramble(u.Elem))
 	case "slice":
@@ -434,8 +447,8 @@ func (g *Gen) RefScramble(t *Ty) string {
 	case "array":
 		body = fmt.Sprintf("\tfor i := 0; i < len(*p); i++ {\n\t\t%s(&(*p)[i])\n\t}\n", g.RefScramble(u.Elem))
 	case "map":
-		// replace every value by a scrambled copy of itself, and add nothing (shape-preserving)
-		body = fmt.Sprintf("\tfor k, v := range *p {\n\t\t%s(&v)\n\t\t(*p)[k] = v\n\t}\n", g.RefScramble(u.Elem))
+		body = fmt.Sprintf("\tif *p == nil {\n\t\treturn\n\t}\n\tfor k, v := range *p {\n\t\t%s(&v)\n\t\t(*p)[k] = v\n\t}\n\tvar zv %s\n\t(*p)[vx.Nondet[%s](\"scramblekey_%s\")] = zv\n",
+			g.RefScramble(u.Elem), u.Elem.Expr(), u.Key.Expr(), u.Key.Mangle())
 	case "struct":
 		var sb strings.Builder
 		for _, f := range u.Fields {
